@@ -26,15 +26,15 @@ LEVEL = "exploration"
 RULE = (
     "(a) every key of the tool's extension and file-name tables (~325 file types) x body {empty, code} with default options; (b) sampled product: "
     "file type from the tables or unrecognised, --style (27 names) or detected, --single-line / --multi-line, ten --copyright-prefix values, 0..3 "
-    "--year / --exclude-year / today's year, --force-dot-license / --fallback-dot-license / --skip-unrecognised, --no-replace, templates {default, prose, "
-    "without contributor loop, pre-commented in the file's style, dropping licences / copyright / both}, binary files, 0..3 holders, 0..2 expressions, "
+    "--year / --exclude-year / today's year, --force-dot-license / --fallback-dot-license / --skip-unrecognised, --no-replace, a holder / LicenseRef- whose tail mirrors the comment marker of its line, templates {default, prose, "
+    "without contributor loop, pre-commented in the file's style, dropping licences / copyright / both}, binary files (not UTF-8 | control characters that are valid UTF-8), 0..3 holders, 0..2 expressions, "
     "0..2 contributors, pre-existing header in own style / foreign style / .license.  Oracle: success => read-back == before U requested (copyright, "
     "licences; contributors when the template renders them); dropping template => never success.  Non-trivial = success case not (python style, default "
     "options); distinct by case."
 )
 ASSUMPTIONS = [
     "file-type tables are read from reuse.comment as domain data (which names exist), styles are re-stated in vlib/gen/styles.py",
-    "contributors/holders never end in the comment character of any style (recorded finding of C02, excluded by construction)",
+    "contributors never end in punctuation that a comment syntax could take for decoration (recorded finding of C02); holders may: the tool then has to refuse or round-trip",
     "--force-dot-license is not combined with a pre-existing in-file header (the sibling then shadows the file by design, C04)",
 ]
 
@@ -75,7 +75,9 @@ def case(draw):
             "existing": existing, "body": draw(st.sampled_from(BODIES)), "no_replace": draw(st.integers(0, 5)) == 0,
             # a commentable file that already has a FILE.license companion; reaching the file through -r DIR; a second file in the same invocation
             "companion": draw(st.integers(0, 4)) == 0, "recursive": name.startswith("src/") and draw(st.integers(0, 2)) == 0,
-            "second": draw(st.sampled_from([None, None, "header", "plain"])) if plain else None}
+            "second": draw(st.sampled_from([None, None, "header", "plain"])) if plain else None,
+            # a requested holder / LicenseRef- whose tail mirrors the comment marker of the line it will be written on; binary content that is valid UTF-8
+            "mirror": draw(st.integers(0, 5)) == 0, "bincontent": draw(st.sampled_from(["nonutf8", "controls"]))}
 
 
 def check(ctx, c, table_walk=False):
@@ -89,13 +91,20 @@ def check(ctx, c, table_walk=False):
     to_dotlicense = c["binary"] or fstyle == "uncommentable" or c["dot"] == "force" or (fstyle is None and c["dot"] == "fallback" and not c["style"]) or companion
     used_style = c["style"] or (fstyle if fstyle in S.STYLES else None)
     req = c["req"]
+    if c.get("mirror") and used_style and not to_dotlicense:
+        single, multi = S.STYLES[used_style]
+        marker = single if single is not None and (c["line"] != "multi" or multi is None) else multi[1].strip()
+        if marker and not any(ch.isalnum() for ch in marker):
+            req = dict(req, holders=req["holders"] + ["Mirror Corp " + marker[::-1]])
+            if set(marker) <= set("-."):
+                req = dict(req, licences=req["licences"] + ["LicenseRef-vendor" + marker[::-1]])
     existing = c["existing"]
     root = ctx.fresh_dir()
     try:
         AN.install_templates(root, used_style)
         # ---- initial content
         if c["binary"]:
-            content = b"\x00\x01\x02\xff\xfe\x00binary\x00"
+            content = b"\x00\x01\x02\xff\xfe\x00binary\x00" if c.get("bincontent") != "controls" else bytes(range(1, 9)) * 40 + b"\n"
             existing = None
         else:
             body = c["body"]
@@ -166,7 +175,7 @@ def check(ctx, c, table_walk=False):
             if s_cop is not None and changed(sname) and (s_cop != want_s_cop or s_lic != want_s_lic):
                 ctx.fail(c, f"second file of the invocation ({sname}): lint reads copyrights={sorted(s_cop)} licences={sorted(map(str, s_lic))}; expected {sorted(want_s_cop)} / {sorted(map(str, want_s_lic))}")
         labels = [f"filestyle:{fstyle}", f"forced-style:{bool(c['style'])}", f"companion:{companion}", f"recursive:{recursive}", f"second:{second}", f"line:{c['line']}", f"dot:{c['dot']}", f"template:{c['template'] if tname else None}",
-                  f"binary:{c['binary']}", f"existing:{existing['where'] if existing else None}", f"exit:{res.code}", f"success:{success}",
+                  f"binary:{c['binary'] and c.get('bincontent', 'nonutf8')}", f"mirror:{req is not c['req']}", f"existing:{existing['where'] if existing else None}", f"exit:{res.code}", f"success:{success}",
                   f"prefix:{req['prefix']}", f"years:{len(req['years'])}{'x' if req['exclude_year'] else ''}"]
         nontrivial = success and not (used_style == "python" and not any([c["style"], c["line"], c["dot"], tname, req["prefix"], existing, c["binary"]]))
         ctx.count(c, nontrivial=nontrivial, labels=labels if not table_walk else ["table-walk", f"filestyle:{fstyle}", f"success:{success}"],
